@@ -105,6 +105,8 @@ type Step struct {
 	Async bool `json:"async,omitempty"`
 	// DelayMs: the call is made that much later than its preconditions allow (schedule perturbation only)
 	DelayMs int `json:"delay_ms,omitempty"`
+	// MQDown: the message queue cannot be reached while this call runs (the connection check of a new handler fails)
+	MQDown bool `json:"mq_down,omitempty"`
 }
 
 // Hold: keep the output pack derived from (P, Idx, Coll) at the "presend" point (channel lock released,
